@@ -23,7 +23,9 @@ def run(tier, seed):
              # nested orthogonal states with pairs of transitions from different regions: the second
              # transition must find the first one completely stabilised (sibling regions entered)
              ([(6, 7, '2o')] if tier == 'quick' else [(6, 8, '2o')],
-              {'require': 'nested-orth', 'schemes': ('asc',), 'history': False, 'final': False, 'decls': ('given',)})]
+              {'require': 'nested-orth', 'schemes': ('asc',), 'history': False, 'final': False, 'decls': ('given',)}),
+             # a listener reads configuration / time / final on every meta-event (in the middle of the steps)
+             ([(2, 4, 1)], {'schemes': ('asc',), 'decls': ('observed',)})]
     return schemes.run('C03', tier, seed, PLAN[tier], ['trace', 'order'], {'trace', 'order', 'config'},
                        RULE, ASSUME, decls=('given', 'rev'), send=True, extra_plans=extra)
 
